@@ -54,14 +54,16 @@ def gen_workload(tape, *, max_funcs=5, max_size=3, allow_gen=True, allow_tuple=T
             axes.append(a)
         kind = "list" if rank == 1 and tape.coin(0.5, "list") else "ndarray"
         inputs[name] = {"axes": axes, "kind": kind, "base": 100 * (len(inputs) + 1)}
+        if kind == "list" and tape.coin(0.1, "list-of-arrays"):
+            inputs[name]["elements"] = "arrays"
         arrays[name] = tuple(axes)
         return name
 
     def new_root_scalar():
-        name = f"s{counters['s']}"
+        name = ("_s" if tape.coin(0.08, "underscore-name") else "s") + str(counters["s"])  # `_shift` is a valid parameter name
         counters["s"] += 1
         inputs[name] = {"axes": [], "kind": "scalar", "base": 0,
-                        "value": tape.pick(["str", "str", "str", "zero", "empty", "none", "false", "tuple", "float", "nan", "unicode"], "scalar-value")}
+                        "value": tape.pick(["str", "str", "str", "zero", "empty", "none", "false", "tuple", "float", "nan", "unicode", "inf", "floatlist"], "scalar-value")}
         scalars.append(name)
         return name
 
@@ -116,6 +118,8 @@ def gen_workload(tape, *, max_funcs=5, max_size=3, allow_gen=True, allow_tuple=T
             fd["seq_out"] = True  # each element / the single result is a 2-tuple
         elif n_out == 1 and kind != "gen" and tape.coin(0.1, "result-like"):
             fd["result_like"] = True  # the value has a .result() method of its own
+        elif n_out == 1 and kind != "gen" and tape.coin(0.08, "data-like"):
+            fd["data_like"] = True  # the value has _data / _mask attributes of its own
         # extra bound / default parameters
         if allow_defaults and tape.coin(0.15, "bound"):
             b = f"b{counters['b']}"
@@ -221,6 +225,9 @@ def _rename_axes(w, ren):
 
 def _array_value(name, d, shape):
     n = int(np.prod(shape))
+    if d["kind"] == "list" and d.get("elements") == "arrays":
+        # a plain list of NumPy arrays with the same leading dimension and different widths (images of equal height)
+        return [d["base"] + np.arange(2 * (i + 1)).reshape(2, i + 1) for i in range(n)]
     if d["kind"] == "list":
         return [f"{name}.{i}" for i in range(n)]
     return (d["base"] + np.arange(n)).reshape(shape)
@@ -295,7 +302,8 @@ def build_inputs(w):
     for name, d in w["inputs"].items():
         if d["kind"] == "scalar":
             out[name] = {"zero": 0, "empty": "", "none": None, "false": False, "tuple": (), "float": 1.5,
-                         "nan": float("nan"), "unicode": f"{name}-välue-θ"}.get(d.get("value", "str"), f"{name}-val")
+                         "nan": float("nan"), "unicode": f"{name}-välue-θ", "inf": float("inf"),
+                         "floatlist": [0.5, float("-inf"), 1e300]}.get(d.get("value", "str"), f"{name}-val")
         elif d["kind"] == "default":
             if d.get("provided"):
                 out[name] = f"{name}-given"
@@ -328,7 +336,8 @@ def build_pipeline(w, *, cached=(), tags=None, **pipeline_kwargs):
                 seq_out=bool(fd.get("seq_out")) and not fd.get("out_shape"),
                 outer={v: k for k, v in inner.items()}, dict_out=fd["outputs"] if fd.get("dict_out") else None,
                 result_like=bool(fd.get("result_like")) and not fd.get("out_shape") and not fd.get("none_mod"),
-                public_name=fd.get("public_name"))
+                public_name=fd.get("public_name"),
+                data_like=bool(fd.get("data_like")) and not fd.get("out_shape") and not fd.get("none_mod"))
         out = fd["outputs"][0] if len(fd["outputs"]) == 1 else tuple(fd["outputs"])
         kw = {}
         if fd.get("out_shape") and w.get("internal_via", "pipefunc") in ("pipefunc", "both"):
@@ -384,6 +393,7 @@ def describe(w):
              **({"profile": True} if fd.get("profile") else {}),
              **({"public_name": fd["public_name"]} if fd.get("public_name") else {}),
              **({"result_like": True} if fd.get("result_like") else {}),
+             **({"data_like": True} if fd.get("data_like") else {}),
              **({"bound": fd["bound"]} if fd.get("bound") else {}),
              **({"defaults": {**fd["defaults"], **fd["sig_defaults"]}} if fd.get("defaults") or fd.get("sig_defaults") else {})}
             for fd in w["functions"]
@@ -407,7 +417,7 @@ def gen_dag(tape, *, min_funcs=2, max_funcs=5, allow_tuple=True, allow_defaults=
             if values and tape.coin(0.65, "reuse"):
                 p = tape.pick(values, "pvalue")
             else:
-                p = f"s{len(roots)}"
+                p = ("_s" if tape.coin(0.08, "underscore-name") else "s") + str(len(roots))
                 roots.append(p)
                 values.append(p)
                 inputs[p] = {"axes": [], "kind": "scalar", "base": 0}
